@@ -986,8 +986,8 @@ def run(ctx):
             run_guarded(ctx, lambda: correspondence(ctx, ctx.n(600, 6000)), "C14 correspondence")
     big = bool(ctx.broken)
     mult = 4 if big else 1
-    run_guarded(ctx, lambda: sweep(ctx, ctx.n(12, 70) * mult, ctx.n(40, 250) * mult, ctx.n(0.5, 1.5),
-                                   ctx.n(3, 20) * mult, ctx.n(2e4, 4e4)),
+    run_guarded(ctx, lambda: sweep(ctx, ctx.n(12, 40) * mult, ctx.n(40, 150) * mult, ctx.n(0.5, 1.0),
+                                   ctx.n(3, 12) * mult, ctx.n(2e4, 3e4)),
                 "C14 quadrature sweep")
 
 
